@@ -12,7 +12,7 @@ from simkit import gen, model
 from simkit.harness import HarnessError, World
 from simkit.seam import REAL
 
-TIERS = {"C03": {"quick": 1200, "thorough": 24000}}
+TIERS = {"C03": {"quick": 1200, "thorough": 10000}}
 LEVEL = {"C03": "exploration"}
 RULE = {
     "C03": "scenario = entry set over names that include prefixes of each other, characters "
